@@ -1,9 +1,77 @@
 package main
 
 import (
+	"encoding/json"
 	"fmt"
+	"os"
+	"strings"
+	"time"
 
-	"github.com/go-task/task/v3"
+	"verifharness/execfam"
 )
 
-func main() { fmt.Println(task.MaximumTaskCall) }
+func main() {
+	if len(os.Args) < 2 {
+		fmt.Println("usage: check <property> <tier> | check dbg-exec <program.json> [prefix-json]")
+		os.Exit(2)
+	}
+	switch os.Args[1] {
+	case "worker-exec":
+		execfam.WorkerMain()
+		return
+	case "dbg-dfs":
+		b, err := os.ReadFile(os.Args[2])
+		if err != nil {
+			panic(err)
+		}
+		var p execfam.Program
+		if err := json.Unmarshal(b, &p); err != nil {
+			panic(err)
+		}
+		var gates []string
+		if g := os.Getenv("GATES"); g != "" {
+			gates = strings.Split(g, ",")
+		}
+		max := 200
+		if len(os.Args) > 3 {
+			fmt.Sscanf(os.Args[3], "%d", &max)
+		}
+		res := execfam.RunPool([]execfam.WorkItem{{Idx: 0, Prog: &p, DFS: max, Snapshot: true, Gates: gates}}, 1, 5*time.Minute)
+		var traces []execfam.TraceItem
+		for k, r := range res[0].Runs {
+			traces = append(traces, execfam.TraceItem{ID: fmt.Sprintf("t%d", k), Prog: 1, Evs: r.Trace})
+		}
+		fmt.Println("runs", len(res[0].Runs), "exhausted", res[0].Exhausted, "crash", res[0].Crash)
+		pv, err := execfam.ValidateProps([]*execfam.Program{&p}, traces)
+		if err != nil {
+			fmt.Println("ERR", err)
+		}
+		for _, t := range traces {
+			fmt.Println(t.ID, pv.ByTrace[t.ID], execfam.TraceString(t.Evs))
+		}
+		fmt.Println("tlc wall", pv.Wall, "states", pv.States)
+		return
+	case "dbg-exec":
+		b, err := os.ReadFile(os.Args[2])
+		if err != nil {
+			panic(err)
+		}
+		var p execfam.Program
+		if err := json.Unmarshal(b, &p); err != nil {
+			panic(err)
+		}
+		job := execfam.Job{Prog: &p}
+		if len(os.Args) > 3 {
+			json.Unmarshal([]byte(os.Args[3]), &job.Prefix)
+		}
+		fmt.Println(p.Taskfile())
+		fmt.Println(p.TLA())
+		res := execfam.Run(job, "/dev/shm")
+		for _, ev := range res.Trace {
+			j, _ := json.Marshal(ev)
+			fmt.Println(string(j))
+		}
+		fmt.Println("taken", res.Taken, "alts", res.Alts, "deadlock", res.Deadlock, "timeout", res.Timeout, "setuperr", res.SetupErr)
+		fmt.Println("stderr:", res.Stderr)
+	}
+}
